@@ -186,9 +186,7 @@ pub fn session(w: &World, a: &mut Peer, b: &mut Peer, sb: &NodeSet, cfg: Cfg, rn
         }
     };
     o.sample = sent;
-    if keep_messages {
-        o.request = bufs.req[..len].to_vec();
-    }
+    o.request = bufs.req[..len].to_vec();
 
     // --- responding side: Syncer::dispatch ---
     o.steps += 1;
